@@ -90,3 +90,24 @@ def units_of(cls):
 
 
 assert len(REF) == 110, len(REF)
+
+# temperature: two defining relations; all six table rows derived by algebra
+#   [K] = [°C] + 273.15        [°F] = [°C] * 9/5 + 32
+_C2K = (F(1), F(27315, 100))
+_C2F = (F(9, 5), F(32))
+
+
+def _inv(fo):
+    f, o = fo
+    return (1 / f, -o / f)
+
+
+def _comp(g, h):            # x -> h(g(x))
+    return (g[0] * h[0], g[1] * h[0] + h[1])
+
+
+TEMP_TABLE = {
+    ('°C', 'K'): _C2K, ('K', '°C'): _inv(_C2K),
+    ('°C', '°F'): _C2F, ('°F', '°C'): _inv(_C2F),
+    ('°F', 'K'): _comp(_inv(_C2F), _C2K), ('K', '°F'): _comp(_inv(_C2K), _C2F),
+}
